@@ -297,6 +297,7 @@ func genH3(seed uint64, tier string) KScenario {
 	}
 	sc.Raw = r.P(0.25)
 	if sc.Raw {
+		o.IdleMS = 0 // the raw peer's waiting periods would run into it
 		genH3Raw(r, sc, tier)
 		return sc
 	}
@@ -2416,6 +2417,16 @@ func (x *h3Run) rawExpectUni(st *H3RawStream, spans []h3Span, cutoff int, cs *h3
 			if f.V == 1 {
 				return h3Conn("SETTINGS with a reserved HTTP/2 setting identifier", 0x109)
 			}
+			if f.V == 3 && x.sc.Opt.SrvDgram {
+				// RFC 9297: SETTINGS_H3_DATAGRAM = 1 needs the QUIC datagram transport parameter
+				plain := x.sc.Cfg.Client == "" || x.sc.Cfg.Client == "plain" || x.sc.Cfg.Client == "unil"
+				switch {
+				case plain && !x.sc.Cfg.Datagrams[0]:
+					return h3Conn("SETTINGS_H3_DATAGRAM without QUIC datagram support", 0x109)
+				case !plain:
+					return h3RawExpect{want: "any"}
+				}
+			}
 			continue
 		}
 		switch f.K {
@@ -2456,6 +2467,7 @@ type h3RawState struct {
 	pingOK  bool
 	pingRan bool
 	pingErr string
+	cause   [2]error
 }
 
 func (x *h3Run) rawWait() time.Duration {
@@ -2528,6 +2540,7 @@ func (x *h3Run) runRaw(dial func(context.Context, string, *tls.Config, *quic.Con
 		rs.pingOK = o.respEOF && r.err == "" && r.status == 200
 		rs.pingErr = fmt.Sprintf("write %v, read %v after %d bytes, parse %q status %d, connection %v", o.writeErr, o.respErr, len(o.resp), r.err, r.status, context.Cause(conn.Context()))
 	}
+	rs.cause = x.connCauses()
 	conn.CloseWithError(0x100, "")
 	uwg.Wait()
 	time.Sleep(50 * time.Millisecond)
@@ -2832,20 +2845,24 @@ func (x *h3Run) serveRaw(w http.ResponseWriter, r *http.Request) {
 func h3RawGot(o *h3RawObs, r *h3RawResp) (kind string, code uint64, text string) {
 	var ae *quic.ApplicationError
 	var se *quic.StreamError
+	var te *quic.TransportError
 	if o.connErr != nil && errors.As(o.connErr, &ae) && ae.Remote {
 		return "conn", uint64(ae.ErrorCode), "connection error " + h3ErrName(uint64(ae.ErrorCode))
+	}
+	if o.connErr != nil && errors.As(o.connErr, &te) {
+		return "dead", 0, "transport error"
 	}
 	if o.respErr != nil && errors.As(o.respErr, &se) && se.Remote {
 		return "stream", uint64(se.ErrorCode), "stream error " + h3ErrName(uint64(se.ErrorCode))
 	}
+	if o.respEOF && r.err == "" && r.status != 0 {
+		return "response", uint64(r.status), "a complete response"
+	}
 	if o.writeErr != nil && errors.As(o.writeErr, &se) && se.Remote {
 		return "stream", uint64(se.ErrorCode), "STOP_SENDING " + h3ErrName(uint64(se.ErrorCode))
 	}
-	if o.respEOF && r.err == "" && r.status != 0 {
-		return "response", uint64(r.status), fmt.Sprintf("a complete response with status %d", r.status)
-	}
 	if o.connErr != nil {
-		return "dead", 0, "connection ended: " + h3ErrClass(o.connErr)
+		return "dead", 0, "connection ended"
 	}
 	return "none", 0, "no reaction"
 }
@@ -2893,11 +2910,8 @@ func (x *h3Run) judgeRaw() {
 		// ---- handler side
 		for _, so := range o.calls {
 			res.Logf("   call: [%d..%d us] cl=%d bodyN=%d eof=%v err=%v trl=%v done=%v", so.t0/1000, so.t1/1000, so.cl, so.bodyN, so.bodyEOF, so.bodyErr, so.trl, so.done)
-			if e.handler == 0 {
+			if e.handler == 0 && e.want == "any" {
 				x.flag(3, "raw peer: "+label+": handler invoked", "%s", what)
-			}
-			if so.bodyEOF && e.want != "ok" && e.want != "any" {
-				x.flag(3, "raw peer: "+label+": the handler read the request body to a clean EOF", "%s: %d bytes; reaction seen by the peer: %s", what, so.bodyN, text)
 			}
 			if so.bodyEOF && e.complete {
 				if so.bodyN != e.bodyLen {
@@ -2919,6 +2933,9 @@ func (x *h3Run) judgeRaw() {
 			x.flag(1, "handler invoked more than once for one request", "%s", what)
 		}
 		// ---- reaction seen by the peer
+		if text == "transport error" {
+			continue
+		}
 		switch e.want {
 		case "conn":
 			switch {
@@ -2998,7 +3015,7 @@ func (x *h3Run) judgeRaw() {
 			}
 		}
 	}
-	x.judgeConn([2]error{}, false)
+	x.judgeConn(rs.cause, false)
 }
 
 // ---------------------------------------------------------------- raw peer: generator
